@@ -706,15 +706,27 @@ def step (s : St) (op impl : String) : St × StepOut :=
       let layout := match fb with | .frames qfs => some qfs | _ => none
       ({ s with pd := some pd, dg := { written := s.src, layout := layout } },
        { model := s!"ok hl={hl}", tags := ["pd:new:" ++ kind] ++ (if (parseInts cls).isEmpty then [] else ["pd:cryptolength"]) })
-  | ["pd", "pack", draws] =>
+  | ["pd", "lose", k] =>
     match s.pd with
     | none => (s, { model := "skip" })
     | some pd =>
+      let k := natOf k
+      let (pd', ok) := Uquic.Model.UQuic.PerDatagram.lose pd k
+      let dg := if iw.headD "" == "ok" then { s.dg with delivered := s.dg.delivered.set k none } else s.dg
+      ({ s with pd := some pd', dg := dg }, { model := if ok then "ok" else "skip", tags := [if ok then "pd:lose" else "pd:lose-skip"] })
+  | ["pd", verb, draws] =>
+    match s.pd, verb == "pack" || verb == "probe" with
+    | none, _ => (s, { model := "skip" })
+    | _, false => (s, { model := "bad-op" })
+    | some pd, true =>
+      let isProbe := verb == "probe"
       let d := parseDraws draws
-      let taken := Uquic.Model.UQuic.PerDatagram.takeFrames pd
+      let taken := if isProbe then Uquic.Model.UQuic.PerDatagram.takeWith pd (Uquic.Model.UQuic.PerDatagram.probeBudget pd)
+        else Uquic.Model.UQuic.PerDatagram.takeFrames pd
       let implP : Option (List UInt8) := if iw.headD "" == "pkt" then some (unhex ((implField impl "p=").getD "-")) else none
       let (perm, unresolved) := marshalWitness pd.fb pd.idx false taken.2 d implP
-      let (pd', out) := Uquic.Model.UQuic.PerDatagram.finish taken.1 taken.2 d perm
+      let (pd', out) := if isProbe then Uquic.Model.UQuic.PerDatagram.probe pd d perm
+        else Uquic.Model.UQuic.PerDatagram.finish taken.1 taken.2 d perm
       let model := match out with
         | .none => "none"
         | .panic => "PANIC"
@@ -769,14 +781,14 @@ def step (s : St) (op impl : String) : St × StepOut :=
             else if impl != "E:rand" && cfgs.all cfgInBounds then
               fails := fails ++ [("pd_pack_error", "-", impl)]
           -- nothing left to send: what was not lost must be everything written to the stream
-          else if iw.headD "" == "none" && dg.judgeable && !dg.written.isEmpty then
+          else if iw.headD "" == "none" && !isProbe && dg.judgeable && !dg.written.isEmpty then
             let rs := (dg.delivered.filterMap id).flatten
             if !coversAll rs 0 dg.written.length then
               fails := fails ++ [("pd_retransmission_covers", "-",
                 s!"nothing left to send, but the datagrams that were not lost do not cover the {dg.written.length} bytes of the Initial CRYPTO stream")]
         return (dg, fails)
       let fresh := pd.queue.isEmpty
-      let tags := [match out with
+      let tags := (if isProbe then [if taken.2.isEmpty then "pd:probe-empty" else "pd:probe"] else []) ++ [match out with
         | .none => "pd:pack-none" | .panic => "pd:pack-panic" | .err e => "pd:E:" ++ e
         | .pkt _ reg =>
           if fresh then (if reg.length > 1 then "pd:fresh-multi" else "pd:fresh")
@@ -788,14 +800,6 @@ def step (s : St) (op impl : String) : St × StepOut :=
               (if pd.idx ≥ 1 && fresh then ["pd:later-datagram"] else [])
           | _ => [])
       ({ s with pd := if ended then none else some pd', dg := dg }, { model := model, tags := tags, fails := fails })
-  | ["pd", "lose", k] =>
-    match s.pd with
-    | none => (s, { model := "skip" })
-    | some pd =>
-      let k := natOf k
-      let (pd', ok) := Uquic.Model.UQuic.PerDatagram.lose pd k
-      let dg := if iw.headD "" == "ok" then { s.dg with delivered := s.dg.delivered.set k none } else s.dg
-      ({ s with pd := some pd', dg := dg }, { model := if ok then "ok" else "skip", tags := [if ok then "pd:lose" else "pd:lose-skip"] })
   | ["pd", "write", lo, n] =>
     match s.pd with
     | none => (s, { model := "skip" })
